@@ -9,3 +9,5 @@ func vAssertSetValue(lit []byte, d *decimal, id string)
 func vAssertRoundedInt(a *decimal, n uint64, id string)
 
 func vAbsDecimal(d *decimal, lit []byte)
+
+func vAssertHalfwayFits(n int, man uint64, e2 int, id string)
